@@ -6,6 +6,7 @@ import (
 	"go/token"
 	"go/types"
 	"golang.org/x/tools/go/cfg"
+	"regexp"
 	"strings"
 )
 
@@ -108,6 +109,45 @@ func srcOf(p *Prog, pkg, recv, m string) (string, *ast.FuncDecl) {
 	return strings.Join(parts, "; "), fd
 }
 
+// srcNorm is srcOf with the receiver rendered as "$" and the i-th parameter as "$i": the few rules
+// that still compare a statement skeleton do not depend on how the receiver and the parameters
+// are named. (Locals keep their names; pure temporaries are substituted by exprKey anyway.)
+func srcNorm(p *Prog, pkg, recv, m string) (string, *ast.FuncDecl) {
+	fd := p.FuncDecl(pkg, recv, m)
+	if fd == nil || fd.Body == nil || p.Pkg(pkg) == nil {
+		return "", nil
+	}
+	info := p.Pkg(pkg).TypesInfo
+	env := map[types.Object]string{}
+	if fd.Recv != nil && len(fd.Recv.List) == 1 && len(fd.Recv.List[0].Names) == 1 {
+		if o := info.Defs[fd.Recv.List[0].Names[0]]; o != nil {
+			env[o] = "$"
+		}
+	}
+	for i, po := range paramObjs(info, fd) {
+		if po != nil {
+			env[po] = fmt.Sprintf("$%d", i+1)
+		}
+	}
+	var tmp []ast.Node
+	ast.Inspect(fd.Body, func(n ast.Node) bool {
+		if id, ok := n.(*ast.Ident); ok {
+			if s, ok := env[info.Uses[id]]; ok {
+				if _, exists := keySubst[id]; !exists {
+					keySubst[id] = s
+					tmp = append(tmp, id)
+				}
+			}
+		}
+		return true
+	})
+	s, _ := srcOf(p, pkg, recv, m)
+	for _, n := range tmp {
+		delete(keySubst, n)
+	}
+	return s, fd
+}
+
 func hasAll(s string, subs ...string) bool {
 	for _, x := range subs {
 		if !strings.Contains(s, x) {
@@ -191,13 +231,91 @@ func checkTimeHeap(r *Reporter, p *Prog) {
 		}
 	}
 	// min-heap by timestamp
-	if s, fd := srcOf(p, pkg, "timeHeap", "Less"); fd == nil {
+	if fd := p.FuncDecl(pkg, "timeHeap", "Less"); fd == nil {
 		r.Unresolved("cmp/direction", pkg+".timeHeap.Less", "method not found")
-	} else if hasAll(s, "return h[i].timestamp.Before(h[j].timestamp)") {
+	} else if dir := lessByTime(p, pkg, fd); dir == "first-older" {
 		r.Pass("cmp/direction", pkg+".timeHeap.Less", p.posStr(fd.Pos()), "oldest entry first")
 	} else {
-		r.Fail("cmp/direction", pkg+".timeHeap.Less", p.posStr(fd.Pos()), "the time heap must order by oldest timestamp first; found "+s)
+		r.Fail("cmp/direction", pkg+".timeHeap.Less", p.posStr(fd.Pos()), "the time heap must order by oldest timestamp first; found "+dir)
 	}
+}
+
+// lessByTime decides what a heap's Less(i, j) orders by when it compares two time stamps: every
+// value it can return is `<elem i>.Before(<elem j>)` or `<elem j>.After(<elem i>)` ("first-older"),
+// the opposite ("first-newer"), or something else - whatever temporaries or helpers it is
+// spelled with. An element is recognised by the index parameter it is selected with.
+func lessByTime(p *Prog, pkg string, fd *ast.FuncDecl) string {
+	info := p.Pkg(pkg).TypesInfo
+	params := paramObjs(info, fd)
+	if len(params) != 2 || params[0] == nil || params[1] == nil {
+		return "not a Less(i, j)"
+	}
+	f := newFuncCFG(p, info, fd.Body, "less")
+	mentions := func(e ast.Expr, pt Point, po types.Object) bool {
+		hit := false
+		var walk func(e ast.Expr, pt Point, depth int)
+		walk = func(e ast.Expr, pt Point, depth int) {
+			ast.Inspect(e, func(n ast.Node) bool {
+				if hit {
+					return false
+				}
+				id, ok := n.(*ast.Ident)
+				if !ok {
+					return true
+				}
+				if f.IsVar(id, pt, po) {
+					hit = true
+					return false
+				}
+				if depth > 0 {
+					if re, rpt := f.Resolve(id, pt); re != ast.Expr(id) {
+						walk(re, rpt, depth-1)
+					}
+				}
+				return true
+			})
+		}
+		walk(e, pt, 4)
+		return hit
+	}
+	verdict := ""
+	n := 0
+	for _, pt := range f.FindOwn(func(n ast.Node) bool { _, ok := n.(*ast.ReturnStmt); return ok }) {
+		rs := f.nodeAt(pt).(*ast.ReturnStmt)
+		if len(rs.Results) != 1 {
+			return "unexpected return"
+		}
+		for _, o := range f.Origins(rs.Results[0], pt) {
+			n++
+			cl, ok := ast.Unparen(o.E).(*ast.CallExpr)
+			if !ok || len(cl.Args) != 1 {
+				return "returns " + exprKey(o.E)
+			}
+			se, ok := ast.Unparen(cl.Fun).(*ast.SelectorExpr)
+			if !ok || (se.Sel.Name != "Before" && se.Sel.Name != "After") {
+				return "returns " + exprKey(o.E)
+			}
+			xi, xj := mentions(se.X, o.At, params[0]), mentions(se.X, o.At, params[1])
+			ai, aj := mentions(cl.Args[0], o.At, params[0]), mentions(cl.Args[0], o.At, params[1])
+			d := ""
+			switch {
+			case xi && !xj && aj && !ai: // elem i . op ( elem j )
+				d = map[string]string{"Before": "first-older", "After": "first-newer"}[se.Sel.Name]
+			case xj && !xi && ai && !aj:
+				d = map[string]string{"Before": "first-newer", "After": "first-older"}[se.Sel.Name]
+			default:
+				return "compares " + exprKey(o.E)
+			}
+			if verdict != "" && verdict != d {
+				return "mixed directions"
+			}
+			verdict = d
+		}
+	}
+	if n == 0 {
+		return "no return value found"
+	}
+	return verdict
 }
 
 func checkRandomMap(r *Reporter, p *Prog) {
@@ -419,10 +537,10 @@ func checkRings(r *Reporter, p *Prog) {
 		want        []string
 		what        string
 	}{
-		{"ds/queue", "Queue", "Offer", []string{"queue.ringBuffer[queue.write]=element", "queue.write=((queue.write+1)%queue.capacity)", "queue.size++", "return false", "return true"}, "store at write, advance write modulo capacity, size++; full queue rejects"},
-		{"ds/queue", "Queue", "ForceOffer", []string{"queue.ringBuffer[queue.read]=", "queue.ringBuffer[queue.write]=element", "queue.write=((queue.write+1)%queue.capacity)", "queue.size++"}, "evict oldest when full, then store/advance/size++"},
-		{"ds/queue", "Queue", "Poll", []string{"=queue.ringBuffer[queue.read]", "queue.read=((queue.read+1)%queue.capacity)", "queue.size--"}, "read at read cursor, advance modulo capacity, size--"},
-		{"ds/ringbuffer", "RingBuffer", "Add", []string{"r.buffer[r.pos]=element", "r.pos=((r.pos+1)%r.capacity)", "r.size=(r.size+1)"}, "store at pos, advance modulo capacity, size grows up to capacity"},
+		{"ds/queue", "Queue", "Offer", []string{"$.ringBuffer[$.write]=element", "$.write=(($.write+1)%$.capacity)", "$.size++", "return false", "return true"}, "store at write, advance write modulo capacity, size++; full queue rejects"},
+		{"ds/queue", "Queue", "ForceOffer", []string{"$.ringBuffer[$.read]=", "$.ringBuffer[$.write]=element", "$.write=(($.write+1)%$.capacity)", "$.size++"}, "evict oldest when full, then store/advance/size++"},
+		{"ds/queue", "Queue", "Poll", []string{"=$.ringBuffer[$.read]", "$.read=(($.read+1)%$.capacity)", "$.size--"}, "read at read cursor, advance modulo capacity, size--"},
+		{"ds/ringbuffer", "RingBuffer", "Add", []string{"$.buffer[$.pos]=element", "$.pos=(($.pos+1)%$.capacity)", "$.size=($.size+1)"}, "store at pos, advance modulo capacity, size grows up to capacity"},
 	} {
 		// judged on the exported operation with its helpers expanded and operands resolved
 		f := p.CFGOf(row.pkg, row.typ, row.m)
@@ -432,6 +550,10 @@ func checkRings(r *Reporter, p *Prog) {
 			continue
 		}
 		s := strings.Join(f.Effects(), "; ")
+		// the receiver's name is not part of the contract
+		if fd := p.FuncDecl(row.pkg, row.typ, row.m); fd != nil && fd.Recv != nil && len(fd.Recv.List) == 1 && len(fd.Recv.List[0].Names) == 1 {
+			s = regexp.MustCompile(`\b`+regexp.QuoteMeta(fd.Recv.List[0].Names[0].Name)+`\.`).ReplaceAllString(s, "$$.")
+		}
 		if hasAll(s, row.want...) {
 			r.Pass("pair/ring-cursor", key, f.P.posStr(f.Body.Pos()), row.what)
 		} else {
@@ -504,8 +626,54 @@ func checkWalkerBulk(r *Reporter, p *Prog) {
 		}
 	}
 	// Push: skip repeats unless revisiting; queue order
-	if s, fd := srcOf(p, pkg, "Walker", "Push"); fd != nil {
-		if hasAll(s, "w.stack.PushBack(nextElement)") && strings.Contains(exprKey(fd.Body.List[0].(*ast.IfStmt).Cond), "!w.revisitElements") {
+	if fd := p.FuncDecl(pkg, "Walker", "Push"); fd != nil {
+		// the element is appended at the back, and only on paths where it was not pushed before or
+		// revisiting is enabled: the skip edge (pushed before AND not revisiting) leads to no append
+		info := p.Pkg(pkg).TypesInfo
+		f := newFuncCFG(p, info, fd.Body, pkg+".Walker.Push")
+		params := paramObjs(info, fd)
+		appends := f.Find(func(n ast.Node) bool {
+			c, ok := n.(*ast.CallExpr)
+			if !ok || len(c.Args) != 1 || len(params) != 1 {
+				return false
+			}
+			se, ok := ast.Unparen(c.Fun).(*ast.SelectorExpr)
+			return ok && se.Sel.Name == "PushBack" && fieldSel(info, se.X, "stack") && objOfIdent(info, c.Args[0]) == params[0]
+		})
+		okPush := len(appends) == 1
+		nSkip := 0
+		if okPush {
+			// edges on which the element is known to have been pushed before and revisiting is off
+			for _, b := range f.G.Blocks {
+				if !b.Live || condOf(b) == nil {
+					continue
+				}
+				for si := range b.Succs {
+					seenBefore, noRevisit := false, false
+					for _, ft := range f.EdgeFacts(b, si == 0) {
+						k := f.KeyAt(ft.Atom, Point{b, len(b.Nodes) - 1})
+						if ft.Pol && strings.Contains(k, ".pushedElements.Set(") {
+							seenBefore = true
+						}
+						if !ft.Pol && strings.HasSuffix(k, ".revisitElements") {
+							noRevisit = true
+						}
+					}
+					if seenBefore && noRevisit {
+						nSkip++
+						if _, reaches := f.reach(Point{b.Succs[si], 0}, nil, func(q Point, atExit bool) bool { return !atExit && f.At(q, appends[0]) }); reaches {
+							okPush = false
+						}
+					}
+				}
+			}
+			// and nothing else keeps the element out: from the entry the append is reachable
+			if _, reaches := f.reach(f.entry(), nil, func(q Point, atExit bool) bool { return !atExit && f.At(q, appends[0]) }); !reaches {
+				okPush = false
+			}
+		}
+		s, _ := srcOf(p, pkg, "Walker", "Push")
+		if okPush && nSkip >= 1 {
 			r.Pass("bulk/no-early-exit", pkg+".Walker.Push", p.posStr(fd.Pos()), "repeat skipped unless revisiting; appended at the back")
 		} else {
 			r.Fail("bulk/no-early-exit", pkg+".Walker.Push", p.posStr(fd.Pos()), "Push must skip already pushed elements unless revisiting and append at the back: "+s)
@@ -547,14 +715,46 @@ func checkPriorityQueueBound(r *Reporter, p *Prog) {
 		r.Unresolved("cmp/direction", pkg+".PriorityQueue.PopUntil", "method not found")
 		return
 	}
-	cond := ""
-	ast.Inspect(fd.Body, func(n ast.Node) bool {
-		if fs, ok := n.(*ast.ForStmt); ok && fs.Cond != nil {
+	// the popping loop continues exactly while the heap is non-empty and the head's key compares
+	// <= the bound: what holds on the continue edge of the loop, whatever its spelling
+	cond := "no popping loop"
+	okCond := false
+	{
+		info := p.Pkg(pkg).TypesInfo
+		f := newFuncCFG(p, info, fd.Body, pkg+".PriorityQueue.PopUntil")
+		params := paramObjs(info, fd)
+		for _, l := range f.Loops() {
+			fs, isFor := l.Stmt.(*ast.ForStmt)
+			if !isFor || fs.Cond == nil {
+				continue
+			}
 			cond = exprKey(fs.Cond)
+			nonEmpty, inclusive, other := false, false, false
+			pt := Point{l.Head, len(l.Head.Nodes) - 1}
+			for _, ft := range f.EdgeFacts(l.Head, true) {
+				rel, isRel := relOfWith(ft.Atom, func(x ast.Expr) string { return f.KeyAt(x, pt) })
+				if !isRel {
+					other = true
+					continue
+				}
+				if !ft.Pol {
+					rel = negRel(rel)
+				}
+				switch {
+				case strings.HasSuffix(rel.L, ".heap.Len()") && ((rel.Op == "!=" && rel.R == "0") || (rel.Op == ">" && rel.R == "0") || (rel.Op == ">=" && rel.R == "1")):
+					nonEmpty = true
+				case strings.HasSuffix(rel.R, ".heap.Len()") && ((rel.Op == "!=" && rel.L == "0") || (rel.Op == "<" && rel.L == "0")):
+					nonEmpty = true
+				case strings.Contains(rel.L, ".heap[0].Key.CompareTo(") && len(params) == 1 && strings.HasSuffix(rel.L, ".CompareTo("+params[0].Name()+")") && ((rel.Op == "<=" && rel.R == "0") || (rel.Op == "<" && rel.R == "1")):
+					inclusive = true
+				default:
+					other = true
+				}
+			}
+			okCond = nonEmpty && inclusive && !other
 		}
-		return true
-	})
-	if cond == "((p.heap.Len()!=0)&&(p.heap[0].Key.CompareTo(priority)<=0))" {
+	}
+	if okCond {
 		r.Pass("cmp/direction", pkg+".PriorityQueue.PopUntil", p.posStr(fd.Pos()), "pops while the head's key <= bound (inclusive)")
 	} else {
 		r.Fail("cmp/direction", pkg+".PriorityQueue.PopUntil", p.posStr(fd.Pos()), "PopUntil must pop while heap non-empty and head.Key.CompareTo(bound) <= 0; found "+cond)
